@@ -193,7 +193,8 @@ def _node_matches_argspec(node, func):
   # (dime10) replacement for tf_inspect.getfullargspec
   arg_spec = inspect.getfullargspec(func)
 
-  node_args = tuple(_arg_name(arg) for arg in node.args.args)
+  node_args = tuple(
+      _arg_name(arg) for arg in node.args.posonlyargs + node.args.args)
   if node_args != tuple(arg_spec.args):
     return False
 
